@@ -190,6 +190,8 @@ def run_stream(ctx, spec, st, replay, scale, hbin, coqc_shards):
     stats = {"observations": len(lines), "distinct": len(sigs), "distinct_nontrivial": nontriv,
              "rule": "schedules drawn from one PRNG (master=%d, profile=%s); distinct = different event logs; non-trivial = at least two processed completions" % (master, profile),
              "harness_s": round(t_h, 1), "coqc_s": round(t_c, 1), "distribution": dict(dist)}
+    if profile == "race":
+        stats["write_delay_shim"] = shim_note or "tools/delay_write_shim.c: one write to best_seen.json delayed by 400 ms in every case"
     return {"stats": stats, "rejections": rejections, "monitor_failures": mfails, "samples": samples}
 
 
@@ -269,6 +271,8 @@ def ops_stream(ctx, spec, st, replay, scale, hbin, coqc_shards):
     stats = {"observations": len(lines), "distinct": len(sigs), "distinct_nontrivial": nontriv,
              "rule": "operator chains on generated specs (master=%d, profile=%s); distinct = different (spec, chain); non-trivial = at least two operator calls" % (master, profile),
              "harness_s": round(t_h, 1), "coqc_s": round(t_c, 1), "distribution": dict(dist)}
+    if profile == "race":
+        stats["write_delay_shim"] = shim_note or "tools/delay_write_shim.c: one write to best_seen.json delayed by 400 ms in every case"
     return {"stats": stats, "rejections": rejections, "monitor_failures": mfails, "samples": samples}
 
 
@@ -441,6 +445,16 @@ def cli_stream(ctx, spec, st, replay, scale, hbin, coqc_shards):
             return {"stats": {}, "rejections": [], "monitor_failures": [], "samples": []}
         master, frm, count, profile, nsh = rp["master"], rp["idx"], 1, rp["profile"], 1
     t0 = time.time()
+    shim_args, shim_note = [], None
+    if profile == "race":
+        # the write-delaying shim is compiled per run; without a C compiler the cases still run, unshimmed
+        so = os.path.join(out, "delay_write_shim.so")
+        cc = subprocess.run(["cc", "-shared", "-fPIC", "-O1", "-o", so, os.path.join(ROOT, "tools", "delay_write_shim.c"), "-ldl"],
+                            stdout=subprocess.PIPE, stderr=subprocess.STDOUT, text=True)
+        if cc.returncode == 0:
+            shim_args = ["--shim", so]
+        else:
+            shim_note = "shim not built (%s): cases ran without the delayed write" % cc.stdout.strip()[-200:]
     procs = []
     per = (count + nsh - 1) // nsh
     for sh in range(nsh):
@@ -451,7 +465,7 @@ def cli_stream(ctx, spec, st, replay, scale, hbin, coqc_shards):
         d = os.path.join(out, "s%d" % sh)
         procs.append((d, subprocess.Popen([sys.executable, os.path.join(ROOT, "tools", "clistream.py"), "--binary", binary,
                                            "--master", str(master), "--from", str(lo), "--count", str(n), "--profile", profile,
-                                           "--out-dir", d, "--work", os.path.join(ctx.work, "cliw_%s_%d" % (st["name"], sh))],
+                                           "--out-dir", d, "--work", os.path.join(ctx.work, "cliw_%s_%d" % (st["name"], sh))] + shim_args,
                                           stdout=subprocess.PIPE, stderr=subprocess.STDOUT, text=True)))
     crashed = []
     for d, pr in procs:
@@ -514,6 +528,8 @@ def cli_stream(ctx, spec, st, replay, scale, hbin, coqc_shards):
     stats = {"observations": len(lines), "distinct": len(sigs), "distinct_nontrivial": nontriv,
              "rule": "real binary runs (master=%d, profile=%s): options x spec x scripted children; non-trivial = at least one child was started" % (master, profile),
              "harness_s": round(t_h, 1), "coqc_s": round(t_c, 1), "distribution": dict(dist)}
+    if profile == "race":
+        stats["write_delay_shim"] = shim_note or "tools/delay_write_shim.c: one write to best_seen.json delayed by 400 ms in every case"
     return {"stats": stats, "rejections": rejections, "monitor_failures": mfails, "samples": samples}
 
 
@@ -587,6 +603,7 @@ PROPS = {
     "C14": _run_prop("C14", [{"kind": "run", "name": "mixed", "profile": "mixed", "count": {"quick": 240, "thorough": 4000}, "salt": 14},
                              {"kind": "cli", "name": "files", "profile": "valid", "count": {"quick": 48, "thorough": 400}, "salt": 141},
                              {"kind": "cli", "name": "drain", "profile": "drain", "count": {"quick": 24, "thorough": 200}, "salt": 143},
+                             {"kind": "cli", "name": "race", "profile": "race", "count": {"quick": 24, "thorough": 200}, "salt": 144},
                              {"kind": "meta", "name": "meta", "profile": "mixed", "count": {"quick": 160, "thorough": 4000}, "salt": 142}],
                      ["meta_adapt::mutate is modelled with the factor 10^exponent as an arbitrary float (MetaAdapt.v); reached through the cfg(cambrian_verif) re-export"],
                      ["best-seen file and CSV rows (Writer) are not modelled yet",
@@ -653,7 +670,8 @@ PROPS = {
         "propfile": "theories/Properties/C16.v",
         "coq_targets": ["theories/Properties/C16.vo"],
         "checkers": ["CliCheck"],
-        "streams": [{"kind": "cli", "name": "mixed", "profile": "mixed", "count": {"quick": 96, "thorough": 900}, "salt": 16}],
+        "streams": [{"kind": "cli", "name": "mixed", "profile": "mixed", "count": {"quick": 96, "thorough": 900}, "salt": 16},
+                    {"kind": "cli", "name": "race", "profile": "race", "count": {"quick": 16, "thorough": 150}, "salt": 161}],
         "assumptions": [
             "partial: decision tables (child result classes, order of checks in main, argv shape) are proved; clap, serde_json's text layer, execve quoting and the file system are trusted and tested",
         ],
